@@ -391,4 +391,98 @@ theorem run_fresh_ids (cfg : Cfg) (hone : exceeds cfg.chunk0 1 cfg.maxChunkCount
       · simpa [(hmk r).2] using hnd.1
       · exact fun h => hdis e he (List.mem_cons_of_mem _ h)
 
+/-! ### the exact payload bound of unsecured frames -/
+
+theorem readBytes_rest_le {b c r : Bytes} (h : readBytes b = some (c, r)) : r.length + 4 ≤ b.length := by
+  unfold readBytes at h
+  by_cases h0 : b.length < 4
+  · simp [h0] at h
+  · simp only [h0, if_false] at h
+    by_cases h1 : leVal (b.take 4) = 0 ∨ leVal (b.take 4) = 4294967295
+    · simp only [h1, if_true] at h
+      cases h; simp; omega
+    · simp only [h1, if_false] at h
+      by_cases h2 : leVal (b.take 4) > (b.drop 4).length
+      · simp only [List.length_drop] at h2
+        simp at h
+        omega
+      · simp only [h2, if_false] at h
+        cases h; simp; omega
+
+theorem parseAsym_rest_le {b u c r : Bytes} (h : parseAsym b = some (u, c, r)) : r.length + 12 ≤ b.length := by
+  unfold parseAsym at h
+  cases h1 : readBytes b with
+  | none => rw [h1] at h; cases h
+  | some p1 =>
+    obtain ⟨x1, r1⟩ := p1
+    rw [h1] at h
+    cases h2 : readBytes r1 with
+    | none => simp [h2] at h
+    | some p2 =>
+      obtain ⟨x2, r2⟩ := p2
+      simp only [h2] at h
+      cases h3 : readBytes r2 with
+      | none => simp [h3] at h
+      | some p3 =>
+        obtain ⟨x3, r3⟩ := p3
+        simp only [h3] at h
+        cases h
+        have := readBytes_rest_le h1
+        have := readBytes_rest_le h2
+        have := readBytes_rest_le h3
+        omega
+
+theorem finish_boundedB (B : Nat) (cfg : RawCfg) (hact : limitActive cfg.limits) (st : RawSt) (ct : Nat) (data : Bytes)
+    (hd : data.length ≤ B + 8) (h : BoundedB B cfg.limits.maxChunkCount st.bufs) :
+    BoundedB B cfg.limits.maxChunkCount (finish cfg st ct data).1.bufs := by
+  unfold finish
+  split
+  · exact h
+  · apply step_boundedB B cfg.limits hact st.bufs _ _ h
+    simp; omega
+
+/-- one frame of at most `rcvBuf` bytes on an unsecured channel: every retained
+    chunk carries at most `rcvBuf − 24` payload bytes (12 header + 4 token id +
+    8 sequence header; an OPN frame has at least 12 bytes of security header) -/
+theorem rawStep_boundedB (cfg : RawCfg) (hact : limitActive cfg.limits) (hsec : cfg.secure = false)
+    (st : RawSt) (f : Frame) (hlen : f.raw.length ≤ cfg.rcvBuf)
+    (h : BoundedB (cfg.rcvBuf - 24) cfg.limits.maxChunkCount st.bufs) :
+    BoundedB (cfg.rcvBuf - 24) cfg.limits.maxChunkCount (rawStep cfg st f).1.bufs := by
+  unfold rawStep
+  simp only [hsec, Bool.false_eq_true, if_false]
+  cases hp : parseAsym (f.raw.drop 12) with
+  | none =>
+    simp only []
+    repeat' split
+    all_goals first
+      | exact h
+      | (apply finish_boundedB _ cfg hact _ _ _ _ h
+         simp only [List.length_drop]; omega)
+  | some p =>
+    obtain ⟨uri, cert, data⟩ := p
+    have hd := parseAsym_rest_le hp
+    simp only [List.length_drop] at hd
+    simp only []
+    repeat' split
+    all_goals first
+      | exact h
+      | (apply finish_boundedB _ cfg hact _ _ _ _ h
+         first
+           | (simp only [List.length_drop]; omega)
+           | omega)
+
+theorem runRaw_boundedB (cfg : RawCfg) (hact : limitActive cfg.limits) (hsec : cfg.secure = false)
+    (st : RawSt) (fs : List Frame) (hlen : ∀ f ∈ fs, f.raw.length ≤ cfg.rcvBuf)
+    (h : BoundedB (cfg.rcvBuf - 24) cfg.limits.maxChunkCount st.bufs) :
+    BoundedB (cfg.rcvBuf - 24) cfg.limits.maxChunkCount (runRawFinal cfg st fs).bufs := by
+  induction fs generalizing st with
+  | nil => exact h
+  | cons f t ih =>
+    unfold runRawFinal
+    split
+    · exact h
+    · exact h
+    · exact ih _ (fun x hx => hlen x (List.mem_cons_of_mem _ hx))
+        (rawStep_boundedB cfg hact hsec st f (hlen f (List.mem_cons_self ..)) h)
+
 end Opcua.Recv.Raw
